@@ -778,6 +778,18 @@ class FnView:
             rv = ds[0][3]["rv"]
             if rv["r"] == "use" and rv["op"]["k"] == "const" and str(rv["op"].get("val", "")).isdigit():
                 return int(rv["op"]["val"])
+        # an index variable: constant when every definition that counts (all of them, or those of the configuration the
+        # view is restricted to) yields the same literal -- `let (i, j) = if first { (0, 1) } else { (1, 0) }`
+        if getattr(self, "_in_ci", False):
+            return None
+        self._in_ci = True
+        try:
+            os_ = self._origins_local(e["i"], (), False, frozenset(), None)
+        finally:
+            self._in_ci = False
+        vals = {o.a for o in os_ if o.kind == "const"}
+        if os_ and len(vals) == 1 and all(o.kind == "const" for o in os_) and str(next(iter(vals))).isdigit():
+            return int(next(iter(vals)))
         return None
 
     def _origins_pl(self, pl, proj, taint, visiting, at=None):
@@ -839,12 +851,13 @@ class FnView:
 
         class _Ctx:
             def __enter__(self_):
-                self_.old = (view._only, view._origin_cache)
+                self_.old = (view._only, view._origin_cache, view._ks)
                 view._only = set(blocks)
                 view._origin_cache = {}
+                view._ks = {}
 
             def __exit__(self_, *a):
-                view._only, view._origin_cache = self_.old
+                view._only, view._origin_cache, view._ks = self_.old
         return _Ctx()
 
     def opaque(self, rx):
